@@ -218,6 +218,23 @@ CHECKS.update({
             "and model explorer only (x86 executions are SC)",
             "machine-checked proof (Coq 8.16) on a hand-written RA view machine + trace conformance on all SC interleavings",
             "DESIGN.md 8.C18"),
+    "C20": ("proof",
+            "Coq theorems (Props/C20.v, 9): written <= capacity is invariant, so capacity - written never underflows and no "
+            "emit/flush/drop of the writer panics, for all capacities (0, 1 included), terminators, histories and fault scripts; "
+            "every well-typed call is answered with a line or InvalidInput for arbitrary strings, numbers, Durations and lists, "
+            "and is rejected exactly when a Duration count exceeds 64 bits or a packed list is empty; the narrowing cast is "
+            "lossless behind its 128-bit guard; the size-hint arithmetic of builder.rs (modelled with checked +,*,-) neither "
+            "overflows nor underflows for anything a 64-bit process can hold; queued() subtracts only behind its guard; the "
+            "statistics counters wrap.  Correspondence: the hostile stream (delimiters, empty/1 MB strings, non-ASCII, extremes, "
+            "NaN/inf, overflowing Durations, empty and 10^5-element lists) through StatsdClient over every sink and queuing "
+            "wrapper with capacities 0/1/2, every writer history of <= 2 (thorough: 3) operations at capacities 0..3, "
+            "SocketStats at u64::MAX, queuing life cycles - every call under catch_unwind on a harness built with overflow "
+            "checks and debug assertions, optimised and debug profile; result kinds compared with the model",
+            TRUST + "partial: proved = no arithmetic panic / unwrap on None in the modelled cores; validated only = "
+            "lock().unwrap(), std internals, the size hint (not observable through the public API; tied by reading); excluded = "
+            "allocation failure, capacities beyond addressable memory, failing thread::spawn, panics of user-supplied sinks/handlers",
+            "machine-checked proof (Coq 8.16) on hand-written models + hostile-input correspondence check under catch_unwind (overflow checks on, two profiles)",
+            "DESIGN.md 8.C20"),
 })
 
 PENDING = "check not built yet in this session (under construction; not a claim that the technique cannot apply)"
